@@ -6,7 +6,7 @@ from props import c01
 def run(R):
     if not R.build():
         return
-    R.lean(["C05", "C05Run"])
+    R.lean(["C05", "C05Run", "C05RunCreate"])
     import hunted
     hunted.run(R, "C05")
     quick = R.tier == "quick"
